@@ -317,7 +317,7 @@ func TestC06(t *testing.T) {
 	}
 
 	// Seeded random larger graphs.
-	r.ForEach("random", r.Pick(12000, 1000000), 8, func(i int, rng *rand.Rand) {
+	r.ForEach("random", r.Pick(12000, 300000), 8, func(i int, rng *rand.Rand) {
 		n := 6 + rng.Intn(35)
 		var edges [][2]int
 		seen := map[[2]int]bool{}
